@@ -118,8 +118,53 @@ class C05(Check):
         else: unknown("junk", str(tj))
         return out
 
+    def probe_variant(self):
+        """HARDENING 8: which repairs the tree has, by BEHAVIOUR (four tiny experiments on a throw-away source); None = the
+        experiment itself behaved unexpectedly.  The source shapes above are only a cross-check."""
+        rv = self.rv
+        P = type("Probe", (rv.Event,), {})
+        S = type("ProbeSource", (rv.EventMixin,), {"_eventMixin_events": set([P])})
+        out = {}
+        def attempt(f):
+            try: return f()
+            except Exception: return None
+        def d24():
+            s = S()
+            def h(e): raise rv.ReventError("from a handler")
+            s.addListener(P, h)
+            try: return s.raiseEventNoErrors(P()) is None
+            except rv.ReventError: return False
+        def d60():
+            s = S()
+            def h(e): raise Boom("probe")
+            s.addListener(P, h, once=True)
+            try: s.raiseEvent(P())
+            except Boom: pass
+            return sum(len(l) for l in s._eventMixin_handlers.values()) == 0
+        def once_pre():
+            s, n = S(), []
+            def a(e):
+                if not n: n.append("a"); s.raiseEvent(P())
+            def b(e): n.append("b")
+            s.addListener(P, a); s.addListener(P, b, once=True)
+            s.raiseEvent(P())
+            return {1: True, 2: False}.get(n.count("b"))
+        def junk():
+            try: S().raiseEvent(int)
+            except rv.ReventError: return True
+            except (UnboundLocalError, TypeError): return False
+            return None
+        buf = io.StringIO()
+        with contextlib.redirect_stdout(buf), contextlib.redirect_stderr(buf):
+            for name, f in (("d24", d24), ("d60", d60), ("oncePre", once_pre), ("junk", junk)):
+                out[name] = attempt(f)
+        return out
+
     def extra_evidence(self):
-        return {"variant": self.variant, "variant_sites_with_unknown_shape": self.unknown_shapes}
+        return {"variant": self.variant, "variant_by_behaviour": self.variant_probe, "variant_by_source_shape": self.variant_ast,
+                "variant_sites_with_unknown_shape": self.unknown_shapes,
+                "variant_probe_vs_shape_mismatch": [k for k in self.variant if self.variant_probe.get(k) is not None and
+                                                     k not in self.unknown_shapes and self.variant_probe[k] != self.variant_ast[k]]}
 
     trusted_base = ["model Model/Revent.lean hand-written from EventMixin (raiseEvent*, addListener*, removeListener, autoBindEvents, "
                     "CallProxy, lazy _eventMixin_init, event.halt) as repaired by D01 and D28; tied to the code by this correspondence run",
@@ -172,7 +217,14 @@ class C05(Check):
         import pox.lib.revent.revent as rv
         self.rv = rv
         self.unknown_shapes = []
-        self.variant = self.detect_variant()
+        try:
+            self.variant_ast = self.detect_variant()
+        except Exception as e:                       # the source no longer has the landmarks at all: behaviour decides alone
+            common.log("C05: source-shape cross-check failed: %s" % e)
+            self.variant_ast = {"d24": False, "d60": False, "oncePre": False, "junk": False}
+            self.unknown_shapes = ["d24", "d60", "oncePre", "junk"]
+        self.variant_probe = self.probe_variant()
+        self.variant = {k: (self.variant_probe[k] if self.variant_probe.get(k) is not None else self.variant_ast[k]) for k in self.variant_ast}
         self.Ev = []
         def __init__(self, fid=None, *a, **k):
             self.fid = fid; self.xa = [list(a), sorted(k.items())]
@@ -743,8 +795,8 @@ class C05(Check):
         return {"halt": halt, "acts": [[a, g] for a, g in acts], "ret": r}
 
     @staticmethod
-    def source(declared=(0, 1), acceptAll=False, lazy=False):
-        return {"declared": list(declared), "acceptAll": acceptAll, "lazy": lazy}
+    def source(declared=(0, 1), acceptAll=False, lazy=False, kind="set", cls=None):
+        return {"declared": list(declared), "acceptAll": acceptAll, "lazy": lazy, "kind": kind, "cls": cls}
 
     def case(self, ops, scripts=(), declared=(0, 1), acceptAll=False, lazy=False, sources=None):
         if sources is None: sources = [self.source(declared, acceptAll, lazy)]
@@ -796,6 +848,37 @@ class C05(Check):
                       [(2, [sc([(R(0, "cls"), False)])]), (3, [sc([(R(0), True)]), sc()])]))
         S.append(case([add(0, 1, once=True), add(0, 2, once=True, weak=1), add(0, 3), R(0), cnt()],
                       [(3, [sc()]), (1, [sc([(rme(2), False), (R(0), False)])])]))
+        # HARDENING 7 (loss at every prefix): a delivery over four handlers, each possible answer at each position, with and without
+        # error suppression, instance and class form
+        for pos in range(4):
+            for k, kw in (("false", {}), ("true", {}), ("tup0", {}), ("tup1", {"h": True}), ("other", {}), ("tup2", {"h": True, "r": True}),
+                          ("tup2", {"h": False, "r": True}), ("exc", {"e": "other"}), ("exc", {"e": "revent"}), ("exc", {"e": "key"})):
+                for noerr in (False, True):
+                    S.append(case([add(0, 1), add(0, 2, once=(pos == 1)), add(0, 3, 2), add(0, 4, weak=1), R(0, "inst", noerr), R(0, "cls", noerr), cnt()],
+                                  [([3, 1, 2, 4][pos], [sc(ret=k, **kw), sc()])]))
+        # HARDENING 1/2 (hidden or shared state): two instances of ONE source class must not share anything; the same handler on both
+        for kind in ("set", "list", "tuple", "frozenset"):
+            twin = [source([0, 1], kind=kind, cls=1), source([0, 1], kind=kind, cls=1)]
+            S.append(case([add(0, 1, s=0), add(0, 2, 5, s=0), R(0, s=1), R(0, "cls", s=1), cnt(1), add(0, 1, s=1), add(1, 3, once=True, s=1), R(0, s=0), R(0, s=1),
+                           rmh(1, s=0), R(0, s=1), R(0, s=0), clr(0), R(0, s=1), cnt(0), cnt(1), add(0, 4, -1, s=1), R(0, s=1), R(1, s=0), R(1, s=1)],
+                          [(1, [sc(), sc([(add(0, 5, 9, s=0), False)]), sc(ret="true")])], sources=twin))
+            S.append(case([add(3, 1), add(0, 1, via=1), add(0, 2, via=3), R(3), R(0), R(5, "cls"), bind([0, 1, 3], 100), R(0), R(1)], sources=[source([0, 1], kind=kind)]))
+        S.append(case([add(0, 1), R(0), R(0, "cls"), cnt(), bind([0], 100), add(0, 1, via=1)], sources=[source([], kind="none")]))
+        S.append(case([add(0, 1), R(0), R(0, "cls"), cnt()], sources=[source([], kind="set"), source([0])]))
+        # HARDENING 3 (rare values): `once` given as 1 / "yes" / [0] / 0 / "" / None, priorities as floats and True, falsy handlers
+        # (hid 3, 6), falsy owners (2), falsy events (Ev1, Ev4), the 300th subscription id
+        for ov in range(4):
+            S.append(case([dict(add(0, 3, once=True), ov=ov), dict(add(0, 6, once=False), ov=ov), dict(add(0, 1, 1), pv=2), dict(add(0, 2, 1), pv=1),
+                           dict(add(1, 3, weak=2, once=True), ov=ov), dict(add(1, 6, -1, weak=2), pv=1), R(0), R(0), R(1), R(1), R(1, "cls"), rmh(3), rmh(6), R(0), cnt()],
+                          [(6, [sc(), sc(ret="tup1", h=False)])], declared=[0, 1, 4]))
+        S.append(case([add(0, 1 + (i % 6), [0, 3, -2][i % 3], once=(i % 7 == 0)) for i in range(300)] + [R(0), rme(299), rme(300), rmp(0, 298), R(0), cnt()],
+                      [(2, [sc(), sc(ret="true")])]))
+        # HARDENING 4 (calling conventions): positional subscribe, extra positional / keyword arguments to raise, removeListeners with
+        # a tuple and a generator
+        S.append(case([add(0, 1, 2, True, None, 5), add(0, 2, -1, False, 1, 5), add(0, 3, 0, False, None, 6), add(1, 4, 3, True, None, 6), add(2, 4, via=6),
+                       dict(R(0), xa=1), dict(R(0, "cls"), xa=1), dict(R(0, "inst", True), xa=2), dict(R(0, "cls", True), xa=2), dict(R(1), xa=1), dict(R(1, "cls"), xa=2),
+                       {"op": "rmm", "s": 0, "pairs": [[0, 2], [0, 3]], "cv": 1}, {"op": "rmm", "s": 0, "pairs": [[0, 1], [2, 1]], "cv": 2}, R(0), cnt()],
+                      [(3, [sc([(dict(R(0, "cls"), xa=1), False), (dict(R(0), xa=2), True)])])]))
         # nested raise of the same type with a one-shot handler; nested raise of another type; noerrors at depth
         S.append(case([add(0, 1), add(0, 2, once=True), add(0, 3), R(0), R(0)], [(1, [sc([(R(0), False)])])]))
         S.append(case([add(0, 1), add(1, 2), add(1, 3, 5), add(0, 4), R(0), R(1)],
@@ -909,9 +992,11 @@ class C05(Check):
         if x < 0.30:
             ctx["adds"] += 1
             weak = rng.choice([1, 2, 3]) if rng.random() < 0.15 else None
-            a = self.add(rng.choice(ets), rng.randint(1, 6), rng.choice([0, 0, 0, 0, 5, 5, -1, -4, 7, 3]), rng.random() < 0.25, weak,
-                         rng.randint(0, 4) if rng.random() < 0.3 else 0, s)
-            if ctx["acceptAll"][s] and a["via"] in (1, 3, 4): a["via"] = 0          # by-name needs a declared set
+            a = self.add(rng.choice(ets), rng.randint(1, 6), rng.choice([0, 0, 0, 0, 5, 5, -1, -4, 7, 3, 1]), rng.random() < 0.25, weak,
+                         rng.randint(0, 6) if rng.random() < 0.35 else 0, s)
+            if ctx["acceptAll"][s] and a["via"] in (1, 3, 4, 6): a["via"] = 0       # by-name needs a declared set
+            if rng.random() < 0.2: a["ov"] = rng.randint(0, 3)
+            if rng.random() < 0.15: a["pv"] = rng.randint(0, 2)
             return a
         if x < 0.36:
             return {"op": "rmh", "s": s, "hid": rng.choice([1, 2, 3, 4, 5, 6, 100, 101, 110, 111, 123]), "et": et_or_none()}
@@ -919,7 +1004,7 @@ class C05(Check):
             return {"op": "rme", "s": s, "eid": rng.randint(0, ctx["adds"] + 1), "et": et_or_none()}
         if x < 0.52:
             return {"op": "rmp", "s": s, "et": rng.choice(ets), "eid": rng.randint(0, ctx["adds"] + 1), "et2": et_or_none()}
-        if x < 0.53: return {"op": "rmm", "s": s, "pairs": [[rng.choice(ets), rng.randint(0, ctx["adds"] + 1)] for _ in range(rng.randint(0, 4))]}
+        if x < 0.53: return {"op": "rmm", "s": s, "pairs": [[rng.choice(ets), rng.randint(0, ctx["adds"] + 1)] for _ in range(rng.randint(0, 4))], "cv": rng.randint(0, 2)}
         if x < 0.54: return {"op": "clear", "s": s}
         if x < 0.59: return {"op": "count", "s": s}
         if x < 0.63: return {"op": "drop", "s": 0, "o": rng.choice([1, 2, 3] + ctx["sinkowners"])}
@@ -934,7 +1019,9 @@ class C05(Check):
                     "prio": rng.choice([0, 0, 4, -2]), "weak": weak, "via": rng.randint(0, 5)}
         if x > 0.985:
             return dict(self.raise_(0, rng.choice(["junkc", "junko"]), rng.random() < 0.3, s), v=rng.randint(0, 11))
-        return self.raise_(rng.choice(ets), rng.choice(["inst", "inst", "cls"]), rng.random() < 0.3, s)
+        r_ = self.raise_(rng.choice(ets), rng.choice(["inst", "inst", "cls"]), rng.random() < 0.3, s)
+        if rng.random() < 0.15: r_["xa"] = rng.randint(1, 2)
+        return r_
 
     def rand_ret(self, rng):
         x = rng.random()
@@ -952,7 +1039,10 @@ class C05(Check):
         sources = []
         for _ in range(nsrc):
             acceptAll = rng.random() < 0.08
-            sources.append(self.source([] if acceptAll else rng.choice(self.DECL), acceptAll, rng.random() < 0.12))
+            sources.append(self.source([] if acceptAll else rng.choice(self.DECL), acceptAll, rng.random() < 0.12,
+                                       rng.choice(["set", "set", "list", "tuple", "frozenset"])))
+        if nsrc == 2 and rng.random() < 0.4:                # two instances of one class
+            sources[1] = dict(sources[0]); sources[0]["cls"] = sources[1]["cls"] = 1
         ctx = {"adds": 0, "binds": 0, "sinkowners": [], "nsrc": nsrc, "acceptAll": [sd["acceptAll"] for sd in sources]}
         ops = [self.rand_action(rng, ctx, 0) for _ in range(nops)]
         scripts = []
